@@ -428,7 +428,8 @@ def check_bez(V, c, pts, ends, qs, sph):
             if est0 <= 1e-3:
                 field = 'two-point-trench:chord-projection<=0'
         if qclass:
-            field += ':' + qclass
+            # the strict class "on the normal through a coordinate" is a near-field class; in the far field it shares the known limits
+            field += ':' + (qclass if field.startswith('near-field') else 'collinear')
         if not ok(r1):
             V.violation('bezier:closest-point-throws', {'points': pts, 'q': q, 'res': r1, 'spherical': sph})
             continue
